@@ -114,7 +114,7 @@ def load_seeded():
                 m["check_props"] = sorted(PROPERTIES)      # a harmless edit must leave EVERY check silent
             out.append(dict(id="seeded/" + name, props=m.get("check_props") or [m["property"]], patch=patch,
                             expect=None if benign else (m.get("expect_rules") or ["*"]), seeded=True, kind=m.get("kind", "breaks property"),
-                            note=m.get("summary", "")))
+                            note=m.get("summary", ""), known_miss=m.get("known_miss")))
     return out
 
 
